@@ -37,6 +37,12 @@ func main() {
 		if len(u) > 0 {
 			os.Exit(3)
 		}
+	case "inventories":
+		t, u := extractInventories(*repo)
+		write("Inventories.v", t, u)
+		if len(u) > 0 {
+			os.Exit(3)
+		}
 	case "itertests":
 		t, u := extractIterTests(*repo)
 		write("IterTests.v", t, u)
